@@ -306,6 +306,9 @@ func (it *Interp) Run() *pbt.Failure {
 	return it.Result()
 }
 
+// BlockerKey names the root cause of a failing blocker (site and normalised panic message).
+func BlockerKey(err error) string { return blockerKey(err) }
+
 func blockerKey(err error) string {
 	if be, ok := err.(*sim.BlockerError); ok {
 		site := siteOf(be.Stack)
